@@ -440,6 +440,11 @@ class Exec:
         return out
 
 
+class ReplayDivergence(RuntimeError):
+    """The same choice prefix led to a different set of enabled actions: the code under test (or the harness) is not a function of
+    the schedule. With the pinned gwf this never happens; a change that e.g. pops from a `set` of Task objects makes it happen."""
+
+
 def run_one(sc, scratch, choices):
     """Replay `choices` (indices into enabled()), then follow the default schedule. Returns the finished Exec and the
     list of choice points (enabled lists + index taken)."""
@@ -455,7 +460,7 @@ def run_one(sc, scratch, choices):
             c = choices[k]
             if c >= len(en):
                 ex.close()
-                raise RuntimeError(f"replay divergence: choice {c} out of range {len(en)} at point {k}")
+                raise ReplayDivergence(f"replay divergence: choice {c} out of range {len(en)} at point {k}")
         else:
             c = 0
         points.append((en, c, ex.state_hash() if en[0][0] != "step" else None))
@@ -473,7 +478,11 @@ def explore(sc, scratch, bound, stats, on_exec, prune=True):
     visited = {}
 
     def rec(prefix, used):
-        ex, points = run_one(sc, scratch, prefix)
+        try:
+            ex, points = run_one(sc, scratch, prefix)
+        except ReplayDivergence:
+            stats["divergences"] = stats.get("divergences", 0) + 1
+            return
         try:
             stats["executions"] += 1
             stats["choice_points"] += len(points)
